@@ -82,9 +82,62 @@ def rn(i):
 
 
 # ------------------------------------------------------------------ generator
+_FLOAT_COSTS = [0.1, 0.2, 0.3, 0.4, 0.6, 0.7, 0.9, 1.1, 1 / 3, 2 / 3, 4 / 3, 0.05, 0.15, 1.7, 2.3]
+
+
+def _gen_float(rng):
+    """oracle-only stream: small deployments whose route / hosting costs are decimal or non-dyadic floats
+    (partial sums not exactly representable), ample to medium capacity, always run to quiescence"""
+    na = rng.choice([3, 3, 3, 4, 4, 5])
+    agents = []
+    cid = 0
+    for i in range(na):
+        comps = []
+        for _c in range(1 if rng.random() < 0.75 else 2):
+            comps.append([cid, rng.choice([1, 2, 3, 5, 0.5, 1.5, 2.5]), []])
+            cid += 1
+        agents.append(dict(comps=comps))
+    allc = [(i, c[0]) for i, a in enumerate(agents) for c in a["comps"]]
+    ncomp = len(allc)
+    links = {c: set() for _, c in allc}
+    shape = rng.choice(["line", "line", "random"])
+    for x in range(ncomp - 1):                      # a chain, so that replicas have to travel 2+ hops
+        links[x].add(x + 1)
+        links[x + 1].add(x)
+    if shape == "random":
+        for x in range(ncomp):
+            for y in range(x + 2, ncomp):
+                if rng.random() < 0.3:
+                    links[x].add(y)
+                    links[y].add(x)
+    for a in agents:
+        for c in a["comps"]:
+            l = sorted(links[c[0]])
+            rng.shuffle(l)
+            c[2] = l
+    droute = rng.choice(_FLOAT_COSTS + [1])
+    mat = [[droute] * na for _ in range(na)]
+    for i in range(na):
+        for j in range(i + 1, na):
+            if rng.random() < 0.8:
+                mat[i][j] = mat[j][i] = rng.choice(_FLOAT_COSTS)
+    for i, a in enumerate(agents):
+        a["droute"] = droute
+        a["routes"] = {str(j): mat[i][j] for j in range(na) if j != i and mat[i][j] != droute}
+        a["dhost"] = rng.choice([0, 0, 0.1, 0.2, 1 / 3, 0.7])
+        a["hosting"] = {str(c): rng.choice(_FLOAT_COSTS + [0]) for _, c in allc if rng.random() < 0.4}
+        own = sum(c[1] for c in a["comps"])
+        a["cap"] = own + rng.choice([3, 6, 10, 20, 40, 40])
+    return dict(agents=agents, k=rng.randint(1, 3), sym=True, graph_sym=True, seed=rng.randrange(10 ** 9),
+                full=True, steps=4000, float=True)
+
+
 def gen(rng, n, tier):
     cases = []
     for _ in range(n):
+        if rng.random() < 0.07:
+            cases.append(_gen_float(rng))
+            continue
         na = rng.choice([2, 3, 3, 4, 4, 5, 5, 6])
         agents = []
         cid = 0
@@ -330,9 +383,11 @@ def oracle(c, o):
     spec = c["agents"]
     na = len(spec)
     k = c["k"]
+    from fractions import Fraction as _F
+    X = _F if c.get("float") else (lambda v: v)      # float stream: exact arithmetic on the actual floats
     fp = {cc[0]: cc[1] for a in spec for cc in a["comps"]}
     owner = {cc[0]: i for i, a in enumerate(spec) for cc in a["comps"]}
-    remaining = {i: a["cap"] - sum(cc[1] for cc in a["comps"]) for i, a in enumerate(spec)}
+    remaining = {i: X(a["cap"]) - sum(X(cc[1]) for cc in a["comps"]) for i, a in enumerate(spec)}
     hyp = c["sym"]          # route costs symmetric (what a DCOP definition guarantees)
     raises = [e for e in o["log"] if e[0] == "raise"]
     if raises and hyp:
@@ -346,7 +401,7 @@ def oracle(c, o):
             return "agent %d accepted a second replica of c%02d" % (h, comp)
         if own != owner.get(comp) or f != fp.get(comp):
             return "agent %d recorded replica c%02d with owner %s footprint %s" % (h, comp, own, f)
-        need = f + _worst(before, k - 1)
+        need = X(f) + _worst([[b[0], b[1], X(b[2])] for b in before], k - 1)
         if remaining[h] < need:
             return ("agent %d accepted c%02d (footprint %d) with remaining capacity %d < %d = footprint + "
                     "worst case for %d owners of %s" % (h, comp, f, remaining[h], need, k - 1, before))
@@ -436,6 +491,8 @@ def _msg(m):
 
 
 def coq_case(c, o):
+    if c.get("float"):
+        return None          # float costs: not modelled (the model has integer costs), oracle only
     for e in o["log"]:
         if e[0] == "raise" and e[2] == 0:
             return None
